@@ -146,8 +146,12 @@ tzd = st.fixed_dictionaries({'mw': st.integers(-720, 840), 'dt': st.integers(0, 
 date = st.fixed_dictionaries({'sec': st.one_of(st.integers(0, 2 ** 32), st.sampled_from([0, 1, 2 ** 31 - 1, 2 ** 31, 2 ** 32])),
                               'usec': st.one_of(st.integers(0, 999999), st.sampled_from([0, 1, 499999, 500000, 999999]))})
 
+# strings are carried verbatim: also text that is not in a Unicode normal form (decomposed accents as file systems hand
+# them out, singletons such as the Angstrom sign, combining marks in non-canonical order, compatibility characters)
+UNNORMALIZED = ['e\u0301', 'A\u030a', '\u212b', 'a\u0323\u0302', 'o\u0302\u0323', '\ufb01', '\u2126', 'n\u0303', '\u1100\u1161', '/', 'x', 'Caf', '.app']
 text = st.one_of(st.text(st.characters(min_codepoint=0x20, max_codepoint=0x7e), max_size=12),
-                 st.text(st.characters(min_codepoint=0x20, max_codepoint=0x2fff, exclude_categories=('Cs', 'Cc')), max_size=8))
+                 st.text(st.characters(min_codepoint=0x20, max_codepoint=0x2fff, exclude_categories=('Cs', 'Cc')), max_size=8),
+                 st.lists(st.sampled_from(UNNORMALIZED), min_size=1, max_size=5).map(''.join))
 
 
 def _subset(keys, elems):
